@@ -622,6 +622,10 @@ func judge(s *core.Shard, k *kase) {
 		s.Cover("placement", o.Placement)
 		s.Cover("kind", o.Section+"/"+o.Kind)
 		if o.Kind != "environment" {
+			// (an object that an earlier layer sourced from a variable: that value is gone for good)
+			for _, c := range o.OldCores {
+				j.allCores = append(j.allCores, coreRef{c, o.Section, o.Name, "replaced"})
+			}
 			continue
 		}
 		s.Cover("decoration", o.Decor)
